@@ -109,7 +109,7 @@ def tlc_errors(out):
     return errs
 
 
-def validate_traces(module, cases, *, nproc=None, timeout=3600, extra_env=None):
+def validate_traces(module, cases, *, nproc=None, timeout=3600, extra_env=None, _retry=True):
     """Validate cases (list of dicts, each with a unique 'cid') with a trace specification.
 
     The cases are split over `nproc` single-worker TLC processes.  Returns
@@ -139,6 +139,7 @@ def validate_traces(module, cases, *, nproc=None, timeout=3600, extra_env=None):
         shutil.rmtree(tmp, ignore_errors=True)
     verdicts = {}
     gen = dist = 0
+    failed_chunks = []
     for i, (out, g, d, rc) in enumerate(results):
         gen += g
         dist += d
@@ -146,14 +147,45 @@ def validate_traces(module, cases, *, nproc=None, timeout=3600, extra_env=None):
             if v["cid"] in verdicts:
                 raise MachineryError(f"two verdicts for case {v['cid']}")
             verdicts[v["cid"]] = v
-        missing = [c["cid"] for c in chunks[i] if c["cid"] not in verdicts]
+        missing = [c for c in chunks[i] if c["cid"] not in verdicts]
         if missing or rc not in (0,):
+            failed_chunks.append((missing, out, rc))
+    if failed_chunks:
+        # A TLC evaluation error (typically 32-bit overflow of the exact rational arithmetic on one case) stops the
+        # whole chunk.  Re-run the cases without verdict one by one; a case that fails again on its own is not judged
+        # (verdict SKIP tlc-evaluation-error, reported in the evidence).  More than a few of them is a machinery failure.
+        if not _retry:
+            missing, out, rc = failed_chunks[0]
             dump = VERIF / "out" / "tlc-failure.log"
             dump.parent.mkdir(exist_ok=True)
             dump.write_text(out)
             raise MachineryError(
-                f"TLC ({module}) gave no verdict for cases {missing[:5]} (exit {rc}); "
+                f"TLC ({module}) gave no verdict for cases {[c['cid'] for c in missing][:5]} (exit {rc}); "
                 f"errors: {tlc_errors(out)[:3]}; full output in {dump}")
+        redo = [c for missing, _, _ in failed_chunks for c in missing]
+        unjudged = []
+
+        def single(c):
+            try:
+                v, st1 = validate_traces(module, [c], nproc=1, timeout=timeout, extra_env=extra_env, _retry=False)
+                return c, v[c["cid"]], st1, None
+            except MachineryError as e:
+                return c, None, None, str(e)
+
+        with ThreadPoolExecutor(max_workers=nproc) as ex:
+            for c, v, st1, err in ex.map(single, redo):
+                if v is not None:
+                    verdicts[c["cid"]] = v
+                    gen += st1["generated"]
+                    dist += st1["distinct"]
+                else:
+                    unjudged.append((c["cid"], err))
+                    verdicts[c["cid"]] = {"cid": c["cid"], "v": ["SKIP", "tlc-evaluation-error"], "exact": False, "detail": err[:300]}
+        if len(unjudged) > max(2, len(cases) // 20):
+            dump = VERIF / "out" / "tlc-failure.log"
+            dump.parent.mkdir(exist_ok=True)
+            dump.write_text("\n\n".join(e for _, e in unjudged))
+            raise MachineryError(f"TLC ({module}) could not evaluate {len(unjudged)} of {len(cases)} cases: {unjudged[0][1][:400]}")
     return verdicts, {"generated": gen, "distinct": dist, "tlc_runs": k, "wall_s": round(time.time() - t0, 2)}
 
 
